@@ -2,6 +2,7 @@ import PhyVerif.Model.C17
 import PhyVerif.Spec.C17
 import PhyVerif.Lemmas.C17
 import PhyVerif.Lemmas.C17b
+import PhyVerif.Lemmas.C17c
 /-!
 # C17 — spike selection honours its cluster, chunk, subset and count constraints
 Only property theorems + non-vacuity examples; proofs in `Lemmas/C17.lean`.
@@ -33,7 +34,10 @@ theorem selection_ok (choose : List Nat → Nat → List Nat) (hch : ChooseOK ch
 
 /-- The kept-chunk clause in the statement's own words, with no reference to the code's stride formula: the
 flattened kept bounds are the grid intervals at SOME regular stride ≥ 1 starting with the first, at most the
-requested number of them. -/
+requested number of them.  (The statement says "never more than the requested number", NOT "as many as it allows":
+`keptOKAny` accepts any coarser regular stride too, down to the first chunk alone — see its docstring and the example
+below.  That the code takes the finest admissible stride is `stride_minimal`, a fact about the model, tied to the real
+selector by the exact comparison of `chunks_kept`: a CORR verdict.) -/
 theorem chunksKept_any_stride (bounds : List Int) (nKept : Nat) (hg : GridOK bounds) (hk : 1 ≤ nKept) :
     keptOKAny bounds nKept (chunksKept bounds nKept) = true :=
   Lemmas.chunksKept_any_stride bounds nKept hg hk
@@ -55,6 +59,18 @@ theorem selection_ok_in (choose : List Nat → Nat → List Nat) (hch : ChooseOK
   rw [Lemmas.chunksKept_eq, ← flatOf, Lemmas.pairsOf_flatOf, ← Lemmas.specOK_eq_in]
   exact Lemmas.selection_ok choose hch x hd.grid
 
+/-- Only the ORDER of spike times and chunk bounds matters: seen through any strictly increasing map of the time
+axis (`Inp.mapTimes`: times and bounds both mapped) the selection is the same list of spike ids and the kept chunks
+are the images of the kept chunks — for every random choice, every input with one time per spike.  This is why a
+model with `Int` times covers fractional, negative and float-typed times and grids (each finite set of rationals is
+the strictly increasing image of integers), and what the correspondence run relies on when it hands the real
+selector `(t − shift)·scale` for the model's `t`. -/
+theorem selection_order_invariant (choose : List Nat → Nat → List Nat) (f : Int → Int)
+    (hf : ∀ a b, a < b → f a < f b) (x : Inp) (hd : x.times.length = x.clusters.length) :
+    selectWith choose (x.mapTimes f) = selectWith choose x ∧
+    chunksKept (x.mapTimes f).bounds x.nKept = (chunksKept x.bounds x.nKept).map f :=
+  ⟨Lemmas.selectWith_mapTimes choose f hf x hd, Lemmas.chunksKept_map f x.bounds x.nKept⟩
+
 /-! Non-vacuity -/
 example : chunksKept [0, 10, 20, 30, 40, 50] 2 = [0, 10, 30, 40] := by decide
 example : keptOK [0, 10, 20, 30, 40, 50] 2 (chunksKept [0, 10, 20, 30, 40, 50] 2) = true := by decide
@@ -71,6 +87,15 @@ example : keptOKAny [0, 10, 20, 30, 40, 50] 2 [0, 10, 30, 40] = true ∧   -- th
     keptOKAny [0, 10, 20, 30, 40, 50] 2 [0, 10, 20, 30, 40, 50] = false ∧ -- stride 2 keeps three chunks
     keptOKAny [0, 10, 20, 30, 40, 50] 2 [10, 20, 40, 50] = false := by decide  -- does not start with the first
 example : stride 5 2 = 3 ∧ stride 7 3 = 3 ∧ stride 4 9 = 1 := by decide
+-- "never more than the requested number" is all the statement asks: the first chunk alone passes for 3 requested
+example : keptOKAny [0, 10, 20, 30] 3 [0, 10] = true ∧ chunksKept [0, 10, 20, 30] 3 = [0, 10, 10, 20, 20, 30] := by decide
+example :
+    let x : Inp := ⟨[1, 5, 12, 31, 33, 39, 45], [2, 2, 7, 2, 2, 2, 7], [0, 10, 20, 30, 40, 50], 2, some 2,
+                    [7, 2, 9], true, none⟩
+    (x.mapTimes (fun t => 3 * t - 100)).times = [-97, -85, -64, -7, -1, 17, 35] ∧
+    (x.mapTimes (fun t => 3 * t - 100)).bounds = [-100, -70, -40, -10, 20, 50] ∧
+    selectWith (fun l n => l.take n) (x.mapTimes (fun t => 3 * t - 100)) = [0, 1] ∧
+    chunksKept (x.mapTimes (fun t => 3 * t - 100)).bounds 2 = [-100, -70, -10, 20] := by decide
 example : Dom ⟨[1, 5, 12], [2, 2, 7], [0, 10, 20], 1, some 2, [7, 2], true, none⟩ :=
   ⟨⟨by decide, by decide⟩, by decide, by decide⟩
 
